@@ -11,8 +11,11 @@ import (
 )
 
 // The maximum number of DNS name compression pointers we are willing to follow.
-// Without something like this, infinite loops are possible.
-const compressionPointerLimit = 10
+// Without something like this, infinite loops are possible. A name has at most
+// 127 labels (255 octets) and every pointer written by messageBuilder.WriteName
+// leads to at least one more label, so 127 is enough to read back any message
+// that WireFormat can produce.
+const compressionPointerLimit = 127
 
 var (
 	// ErrZeroLengthLabel is the error returned for names that contain a
